@@ -519,7 +519,7 @@ def check_seq(pid, tier, seed):
             cplans = [["--seed", str(seed * 1000 + 700 + i), "--programs", "16", "--dfs-p", "1", "--dfs-cap", "3000",
                        "--pct", "30", "--rand", "30"] for i in range(NCPU)]
         else:
-            cplans = [["--seed", str(seed * 1000 + 700 + i), "--programs", "200", "--dfs-p", "2", "--dfs-cap", "20000",
+            cplans = [["--seed", str(seed * 1000 + 700 + i), "--programs", "60", "--dfs-p", "2", "--dfs-cap", "20000",
                        "--pct", "60", "--rand", "60"] for i in range(NCPU)]
         run_sched_workers(pid, olc, cplans, cdir, res)
         conc = merge_stats(sched_stats_files(cdir, len(cplans)))
@@ -987,10 +987,10 @@ def check_olc(pid, tier, seed):
         plans = []
         for i in range(NCPU):
             if i % 4 == 0:
-                plans.append(["--seed", str(seed * 1000 + i), "--shape", "pairs", "--programs", "150", "--dfs-p", "3",
+                plans.append(["--seed", str(seed * 1000 + i), "--shape", "pairs", "--programs", "60", "--dfs-p", "3",
                               "--dfs-cap", "60000", "--pct", "50", "--rand", "50"])
             else:
-                plans.append(["--seed", str(seed * 1000 + i), "--programs", "300", "--dfs-p", "2", "--dfs-cap", "30000",
+                plans.append(["--seed", str(seed * 1000 + i), "--programs", "120", "--dfs-p", "2", "--dfs-cap", "30000",
                               "--pct", "150", "--rand", "150", "--pct-depth", "4"])
     # every fourth worker (offset 2, 3 alternating shapes) runs the NDEBUG build
     plans = [(["--exe", exe_nd] + pl) if i % 8 in (2, 5) else pl for i, pl in enumerate(plans)]
